@@ -40,3 +40,42 @@ package parallel
 //@   ensures [C10] state-from-tasks: result.State == (len(tasks) == 0 ? execution.IndexNotCreated
 //@        : (allFin(tasks) ? ((!anySucc(tasks) && !exhausted(tasks, maxAttempts)) ? execution.IndexRetryBackoff : execution.IndexTerminated)
 //@        : (anyRunning(tasks) ? execution.IndexRunning : execution.IndexStarting)))
+
+//@ pure cntState(ixs []execution.ParallelIndexStatus, n int, st execution.IndexState) Int =
+//@     n <= 0 ? 0 : cntState(ixs, n - 1, st) + (ixs[n - 1].State == st ? 1 : 0)
+//@ pure cntResult(ixs []execution.ParallelIndexStatus, n int, res execution.TaskResult) Int =
+//@     n <= 0 ? 0 : cntResult(ixs, n - 1, res) + (ixs[n - 1].Result == res ? 1 : 0)
+
+// an index needs no more waiting: nothing created (and nothing will be), in retry back-off, or all its tasks finished
+//@ pure settled(ix execution.ParallelIndexStatus) bool = ix.State == execution.IndexNotCreated || ix.State == execution.IndexRetryBackoff || ix.State == execution.IndexTerminated
+//@ pure created(ix execution.ParallelIndexStatus) bool = ix.State == execution.IndexRetryBackoff || ix.State == execution.IndexStarting || ix.State == execution.IndexRunning || ix.State == execution.IndexTerminated
+
+//@ func GetParallelStatusCounters
+//@   tags C10
+//@   loop 1 invariant -1 <= rangeindex && rangeindex < len(indexes)
+//@   loop 1 invariant status.Starting == cntState(indexes, rangeindex + 1, execution.IndexStarting) && status.Running == cntState(indexes, rangeindex + 1, execution.IndexRunning)
+//@        && status.RetryBackoff == cntState(indexes, rangeindex + 1, execution.IndexRetryBackoff)
+//@        && status.Terminated == cntState(indexes, rangeindex + 1, execution.IndexNotCreated) + cntState(indexes, rangeindex + 1, execution.IndexRetryBackoff) + cntState(indexes, rangeindex + 1, execution.IndexTerminated)
+//@        && status.Created == cntState(indexes, rangeindex + 1, execution.IndexRetryBackoff) + cntState(indexes, rangeindex + 1, execution.IndexStarting) + cntState(indexes, rangeindex + 1, execution.IndexRunning) + cntState(indexes, rangeindex + 1, execution.IndexTerminated)
+//@        && status.Succeeded == cntResult(indexes, rangeindex + 1, execution.TaskSucceeded) && status.Failed == cntResult(indexes, rangeindex + 1, execution.TaskFailed)
+//@   loop 1 invariant 0 <= status.Terminated && status.Terminated <= rangeindex + 1 && ((status.Terminated == rangeindex + 1) <==> (forall k int :: 0 <= k && k <= rangeindex ==> settled(indexes[k])))
+//@   loop 1 invariant 0 <= status.Created && status.Created <= rangeindex + 1 && ((status.Created == rangeindex + 1) <==> (forall k int :: 0 <= k && k <= rangeindex ==> created(indexes[k])))
+//@   loop 1 invariant 0 <= status.Succeeded && status.Succeeded <= rangeindex + 1 && ((status.Succeeded == rangeindex + 1) <==> (forall k int :: 0 <= k && k <= rangeindex ==> indexes[k].Result == execution.TaskSucceeded))
+//@        && ((status.Succeeded > 0) <==> (exists k int :: 0 <= k && k <= rangeindex && indexes[k].Result == execution.TaskSucceeded))
+//@   loop 1 invariant 0 <= status.Failed && status.Failed <= rangeindex + 1 && ((status.Failed == rangeindex + 1) <==> (forall k int :: 0 <= k && k <= rangeindex ==> indexes[k].Result == execution.TaskFailed))
+//@        && ((status.Failed > 0) <==> (exists k int :: 0 <= k && k <= rangeindex && indexes[k].Result == execution.TaskFailed))
+//@   loop 1 invariant ((status.RetryBackoff > 0) <==> (exists k int :: 0 <= k && k <= rangeindex && indexes[k].State == execution.IndexRetryBackoff))
+//@        && ((status.Starting > 0) <==> (exists k int :: 0 <= k && k <= rangeindex && indexes[k].State == execution.IndexStarting)) && status.RetryBackoff >= 0 && status.Starting >= 0
+//@   ensures [C10] all-settled-iff: 0 <= result.Terminated && result.Terminated <= len(indexes) && ((result.Terminated >= len(indexes)) <==> (forall k int :: 0 <= k && k < len(indexes) ==> settled(indexes[k])))
+//@   ensures [C10] all-created-iff: 0 <= result.Created && result.Created <= len(indexes) && ((result.Created >= len(indexes)) <==> (forall k int :: 0 <= k && k < len(indexes) ==> created(indexes[k])))
+//@   ensures [C10] succeeded-iffs: ((result.Succeeded >= len(indexes)) <==> (forall k int :: 0 <= k && k < len(indexes) ==> indexes[k].Result == execution.TaskSucceeded))
+//@        && ((result.Succeeded > 0) <==> (exists k int :: 0 <= k && k < len(indexes) && indexes[k].Result == execution.TaskSucceeded))
+//@   ensures [C10] failed-iffs: ((result.Failed >= len(indexes)) <==> (forall k int :: 0 <= k && k < len(indexes) ==> indexes[k].Result == execution.TaskFailed))
+//@        && ((result.Failed > 0) <==> (exists k int :: 0 <= k && k < len(indexes) && indexes[k].Result == execution.TaskFailed))
+//@   ensures [C10] waiting-iffs: ((result.RetryBackoff > 0) <==> (exists k int :: 0 <= k && k < len(indexes) && indexes[k].State == execution.IndexRetryBackoff))
+//@        && ((result.Starting > 0) <==> (exists k int :: 0 <= k && k < len(indexes) && indexes[k].State == execution.IndexStarting))
+//@   ensures [C10] counters: result.Starting == cntState(indexes, len(indexes), execution.IndexStarting) && result.Running == cntState(indexes, len(indexes), execution.IndexRunning)
+//@        && result.RetryBackoff == cntState(indexes, len(indexes), execution.IndexRetryBackoff)
+//@        && result.Terminated == cntState(indexes, len(indexes), execution.IndexNotCreated) + cntState(indexes, len(indexes), execution.IndexRetryBackoff) + cntState(indexes, len(indexes), execution.IndexTerminated)
+//@        && result.Created == cntState(indexes, len(indexes), execution.IndexRetryBackoff) + cntState(indexes, len(indexes), execution.IndexStarting) + cntState(indexes, len(indexes), execution.IndexRunning) + cntState(indexes, len(indexes), execution.IndexTerminated)
+//@        && result.Succeeded == cntResult(indexes, len(indexes), execution.TaskSucceeded) && result.Failed == cntResult(indexes, len(indexes), execution.TaskFailed)
